@@ -28,8 +28,8 @@ VH_DRIVER(escape){
   for(int i=0;i<(g.thorough?20000:1500);++i){ Text t; int n=R.below(60); for(int j=0;j<n;++j){ int k=R.below(10); if(k<3) t.push_back(1+R.below(255)); else if(k<5){ t.push_back('%'); if(R.below(4)) t.push_back("0123456789abcdefABCDEFgG%"[R.below(25)]); if(R.below(3)) t.push_back("0123456789abcdefABCDEF"[R.below(22)]); } else t.push_back(reps[R.below((int)reps.size())]); } in.push_back(t); }
   long per=8+16; size_t total=in.size()*per; double keep= total>(size_t)want? (double)want/total:1.0; long k=0;
   for(auto&t:in){ bool narrow=true; for(int c:t) if(c>255) narrow=false;
-    for(int sp=0;sp<2;++sp) for(int nb=0;nb<2;++nb) for(int ex=0;ex<2;++ex){ ++k; if(keep<1.0 && (R.next()%1000000)>=keep*1000000) continue; if(narrow&&(k%2)) escape_event<ApiA>(a1,a2,t,ex,sp,nb); else escape_event<ApiW>(a1,a2,t,ex,sp,nb); }
-    for(int ps=0;ps<2;++ps) for(int conv=0;conv<4;++conv) for(int wd=0;wd<2;++wd){ ++k; if(keep<1.0 && (R.next()%1000000)>=keep*1000000) continue; bool plain=(ps==0&&conv==3&&wd==0&&(k%4==0)); if(wd==0) unescape_event<ApiA>(a3,t,ps,conv,plain); else unescape_event<ApiW>(a3,t,ps,conv,plain); }
+    for(int sp=0;sp<2;++sp) for(int nb=0;nb<2;++nb) for(int ex=0;ex<2;++ex){ ++k; if(keep<1.0 && (R.next()%1000000)>=keep*1000000) continue; AW(narrow,k%2,[&]{ escape_event<ApiA>(a1,a2,t,ex,sp,nb); },[&]{ escape_event<ApiW>(a1,a2,t,ex,sp,nb); }); }
+    for(int ps=0;ps<2;++ps) for(int conv=0;conv<4;++conv) for(int wd=0;wd<2;++wd){ ++k; if(keep<1.0 && (R.next()%1000000)>=keep*1000000) continue; bool plain=(ps==0&&conv==3&&wd==0&&(k%4==0)); if(g.pair){ if(wd==0) AW(narrow,true,[&]{ unescape_event<ApiA>(a3,t,ps,conv,plain); },[&]{ unescape_event<ApiW>(a3,t,ps,conv,plain); }); } else if(wd==0) unescape_event<ApiA>(a3,t,ps,conv,plain); else unescape_event<ApiW>(a3,t,ps,conv,plain); }
     g.count(jtext(t),!t.empty()); if(k%20011<24) g.sample(J().str("in",show(t)).done()); }
   return 0;
 }
